@@ -622,3 +622,10 @@ _amend("C16", "(procseq) sequential programs",
 _amend("C01", "and - with a burst being written by another goroutine meanwhile -",
        "a PAUSE (of a reader or of the recording client) that the server's application refuses with 405, after which the session and its obligations "
        "go on, and - with a burst being written by another goroutine meanwhile -")
+_c11_jobs = PROPS["C11"]["jobs"]
+PROPS["C11"]["jobs"] = lambda tier: _c11_jobs(tier) + [
+    seeded("ghost", "e2e", "^TestC11Ghost$", 20 if tier == "quick" else 300, 8, timeout=1800)]
+_amend("C11", "Non-trivial: the peer obtained at least one 200 before deviating.",
+       "(ghost) a UDP reader, a UDP reader with an ONVIF back channel or a UDP publisher goes away (connection closed and the session left to its "
+       "timeout, or TEARDOWN) and 1..6 datagrams (RTP, junk, RTCP) keep arriving from the ports it had negotiated: the process survives and nothing "
+       "reaches the application for the ended session (the registrations are gone). Non-trivial: the peer obtained at least one 200 before deviating.")
